@@ -468,6 +468,42 @@ Proof.
   apply (C07_terminates d q k votes n tgt dorder _ Hq0 Hq1 Hk Hd Hwf Hv Hdo). apply le_n.
 Qed.
 
+(* 7''. TOTAL CORRECTNESS of the model of evaluate (the code as it stands), in one statement: with the fuel of C07_terminates and
+        for the two rounding rules the evaluator supports, the answer is a certified seat matrix, or a refusal that is
+        justified (no seat matrix with the marginals and empty cells where there are no votes exists); it is never a
+        ZeroDivisionError nor the out-of-fuel answer.  Left open: a tied party apportionment (outside the property's
+        quantifier), the ValueError of HighestAverages (n = 0) and KeyError (not excluded here; observed per instance) *)
+Theorem C07_total_correct : forall d q k votes n tgt dorder fuel,
+  (0 <= q)%Q -> (q < 1)%Q -> (q == 0 \/ q == 1 # 2)%Q -> (0 < k)%Q -> (forall z, d z == k * (inject_Z z + 1 - q))%Q ->
+  wf_votes votes -> (forall i j, 0 <= mget votes i j) -> 0 <= n ->
+  NoDup dorder -> incl (districts votes) dorder -> incl dorder (districts votes) ->
+  (fuel_bound d q votes tgt dorder n <= fuel)%nat ->
+  match evaluate_core d q votes tgt dorder true n fuel with
+  | BP_ok res rho gamma =>
+      exists pseats, ha_marginal d (party_totals votes) n = Some pseats /\
+        cert_ok d (districts votes) (parties votes) votes tgt pseats res (scale_k k rho) gamma = true /\
+        biprop_spec d (districts votes) (parties votes) votes tgt pseats res
+  | BP_no_votes =>
+      forall pseats, ha_marginal d (party_totals votes) n = Some pseats ->
+        forall dseats res, ~ biprop_spec d (districts votes) (parties votes) votes dseats pseats res
+  | BP_refused a =>
+      exists pseats, ha_marginal d (party_totals votes) n = Some pseats /\
+        forall res, ~ biprop_spec d (districts votes) (parties votes) votes tgt pseats res
+  | BP_zero_division | BP_out_of_fuel => False
+  | BP_party_tie | BP_district_tie | BP_value_error | BP_key_error => True
+  end.
+Proof.
+  intros d q k votes n tgt dorder fuel Hq0 Hq1 Hq Hk Hd Hwf Hv Hn Hdo Hdo1 Hdo2 Hf.
+  destruct (evaluate_core d q votes tgt dorder true n fuel) as [res rho gamma|a| | | | | | |] eqn:E; try exact I.
+  - exact (C07_evaluate_partial_correct d q k votes n tgt dorder fuel res rho gamma Hq0 Hq1 Hk Hd Hwf Hv Hn Hdo1 E).
+  - destruct (C07_refusal_justified d q k votes n tgt dorder fuel a Hq0 Hq1 Hq Hk Hd Hwf Hv Hn Hdo Hdo1 Hdo2 E) as (pseats & Hp & _ & Hinf).
+    exists pseats. split; [exact Hp|exact Hinf].
+  - exact (evaluate_core_no_zerodiv d q k votes tgt dorder true n fuel Hq0 Hq1 Hk Hd Hwf Hv Hn (or_introl eq_refl) E).
+  - intros pseats Hp. apply (C07_no_votes_refusal_justified d q k votes n pseats Hq0 Hq1 Hk Hd Hv Hn); [|exact Hp].
+    apply (proj1 (proj1 (C07_no_votes_refusal d q votes tgt dorder n fuel)) E).
+  - exact (C07_terminates d q k votes n tgt dorder fuel Hq0 Hq1 Hk Hd Hwf Hv Hdo Hf E).
+Qed.
+
 (* 8. what the wire unit 105 runs (one pass that returns the trace and the outcome) IS the model of the theorems above *)
 Theorem C07_unit_runs_the_model : forall d q votes tgt dorder strict n fuel,
   snd (run_core d q votes tgt dorder strict n fuel) = evaluate_core d q votes tgt dorder strict n fuel /\
@@ -611,4 +647,5 @@ Print Assumptions C07_loop_terminates.
 Print Assumptions C07_terminates.
 Print Assumptions C07_total_terminates.
 Print Assumptions C07_termination.
+Print Assumptions C07_total_correct.
 Print Assumptions C07_unit_runs_the_model.
